@@ -125,6 +125,7 @@ proof { assert(**cp as int == vals[k]); assert(forall|i: int| 0 <= i < k ==> val
         extra='''
     // all code points below `next` are either covered by a processed row or by an entry of the table
     pub closed spec fn next(&self) -> int { self.range.start.v() as int }
+    pub closed spec fn entries(&self) -> Seq<Codepoints> { self.vec@ }
     pub closed spec fn inv(&self) -> bool {
         &&& searchable(self.vec@)
         &&& self.range.end.v() <= self.range.start.v()
@@ -165,13 +166,19 @@ proof { assert(**cp as int == vals[k]); assert(forall|i: int| 0 <= i < k ==> val
     gen = Module('ucd_generator', 'precis-tools/src/generators/ucd_generator.rs', [
         Verbatim(r'pub\s+struct\s+UcdTableGen\b'),
         Text('impl UcdTableGen { pub closed spec fn set(&self) -> Set<u32> { self.cps@ } pub closed spec fn key(&self) -> Seq<char> { self.name@ } }'),
+        Impl(r'impl\s+UcdTableGen\s*(?=\{)', header='impl UcdTableGen', fns=[
+            Fn('new', ret='r', head='proof { crate::ucd_parse::string_facts(); crate::ucd_parse::axiom_string_from_str(name); }', ensures=[('C15.gc_new', 'r.set() == Set::<u32>::empty() && r.key() == name@')])]),
         gctable,
         Verbatim(r'const\s+CANONICAL_COMBINING_CLASS_VIRAMA\b'),
         Verbatim(r'pub\s+struct\s+ViramaTableGen\b'),
         Text('impl ViramaTableGen { pub closed spec fn set(&self) -> Set<u32> { self.cps@ } }'),
+        Impl(r'impl\s+ViramaTableGen\s*(?=\{)', header='impl ViramaTableGen', fns=[
+            Fn('new', ret='r', ensures=[('C15.virama_new', 'r.set() == Set::<u32>::empty()')])]),
         virama,
         Verbatim(r'pub\s+struct\s+WidthMappingTableGen\b'),
         Text('impl WidthMappingTableGen { pub closed spec fn rows(&self) -> Seq<(Codepoints, crate::ucd_parse::Codepoint)> { self.vec@ } }'),
+        Impl(r'impl\s+WidthMappingTableGen\s*(?=\{)', header='impl WidthMappingTableGen', fns=[
+            Fn('new', ret='r', ensures=[('C15.width_new', 'r.rows().len() == 0')])]),
         Impl(r'impl\s+UcdLineParser<ucd_parsers::UnicodeData>\s+for\s+WidthMappingTableGen\b', header='impl WidthMappingTableGen', fns=[
             Fn('process_entry', ret='res',
                # `err!(..)` expands to Err(Error::parse(format!(..))): W.err replaces the macro call by a wrapper returning an Err
@@ -181,6 +188,8 @@ proof { assert(**cp as int == vals[k]); assert(forall|i: int| 0 <= i < k ==> val
         ]),
         Verbatim(r'pub\s+struct\s+UnassignedTableGen\b'),
         unassigned,
+        Impl(r'impl\s+UnassignedTableGen\s*(?=\{)', header='impl UnassignedTableGen', fns=[
+            Fn('new', ret='r', ensures=[('C15.unassigned_new', 'r.inv() && r.next() == 0 && r.entries().len() == 0')])]),
     ], header='use super::*;\nuse crate::spec::*;\nuse crate::common;\nuse crate::ucd_parse;\nuse crate::ucd_parsers;\nuse crate::ucd_parse::Codepoints;\nuse crate::ucd_parse::UnicodeDataDecompositionTag;\nuse crate::error::Error;\nbroadcast use {crate::ucd_parse::axiom_string_eq};\n')
     err = Module('error', None, [Text('''
 // MODEL of precis_tools::Error (message/line/path record built with format!): only its existence matters here
@@ -197,6 +206,9 @@ pub fn vx_err<T>() -> (r: Result<T, Error>) ensures r is Err { unimplemented!() 
     bidi = Module('bidi_class', 'precis-tools/src/generators/bidi_class.rs', [
         Verbatim(r'pub\s+struct\s+BidiClassGen\b'),
         Fn('add_range', head='proof { string_facts(); }', tail='proof { assert(vec@ =~= old(vec)@.push(vec@.last())); }', ensures=[('C15.bidi_add_range', 'exists|p: (Codepoints, String)| final(vec)@ == old(vec)@.push(p) && p.1@ == bidi@ && lo(p.0) == range.start.v() && hi(p.0) == range.end.v()')]),
+        Impl(r'impl\s+BidiClassGen\s*(?=\{\s*(?:///[^\n]*\s*)*pub\s+fn\s+new\b)', header='impl BidiClassGen', fns=[
+            Fn('new', ret='r', ensures=[('C15.bidi_new', 'r.rows().len() == 0')])]),
+        Text('impl BidiClassGen { pub closed spec fn rows(&self) -> Seq<(Codepoints, String)> { self.vec@ } }'),
         Impl(r'impl\s+BidiClassGen\s*(?=\{\s*fn\s+generate_bidi_class_table)', header='impl BidiClassGen', fns=[
             Fn('compress_into_ranges', no_w=True,
                requires=[('REQ.rows_ascending', 'well_formed(keys(old(self).vec@))')],
